@@ -796,7 +796,14 @@ class HeapExec(NumExec):
                         new = z3.Concat(z3.Unit(s.unwrap(cur.kind, v, n)), cur.q)
                     elif f.attr == "append":
                         v = s.ev(p, n.value.args[0])
-                        new = z3.Concat(cur.q, z3.Unit(s.unwrap(cur.kind, v, n)))
+                        uv = s.unwrap(cur.kind, v, n)
+                        new = z3.Concat(cur.q, z3.Unit(uv))
+                        # ground consequences of the append (valid lemmas about sequences; z3's sequence solver is unstable when it has to derive them itself):
+                        # the length, the last element, and the old elements at the goal's skolem indices
+                        ln = z3.Length(cur.q)
+                        p.pc += [z3.Length(new) == ln + 1, new[ln] == uv]
+                        for j in list(getattr(s, "skolems", [])) + [ln - 1]:
+                            p.pc.append(z3.Implies(z3.And(j >= 0, j < ln), new[j] == cur.q[j]))
                     else:
                         v = s.ev(p, n.value.args[0])
                         if not isinstance(v, SeqV):
